@@ -1,0 +1,35 @@
+//go:build verif
+
+package ports
+
+import "sort"
+
+// VerifPortsSnapshot is a copy of the manager's accounting taken under its lock.
+type VerifPortsSnapshot struct {
+	NetType  string
+	Used     map[int]string // port -> proxy name
+	Reserved map[string]int // proxy name -> port
+	Free     []int
+}
+
+func (pm *Manager) VerifSnapshot() VerifPortsSnapshot {
+	pm.mu.Lock()
+	defer pm.mu.Unlock()
+	s := VerifPortsSnapshot{
+		NetType:  pm.netType,
+		Used:     make(map[int]string, len(pm.usedPorts)),
+		Reserved: make(map[string]int, len(pm.reservedPorts)),
+		Free:     make([]int, 0, len(pm.freePorts)),
+	}
+	for p, c := range pm.usedPorts {
+		s.Used[p] = c.ProxyName
+	}
+	for n, c := range pm.reservedPorts {
+		s.Reserved[n] = c.Port
+	}
+	for p := range pm.freePorts {
+		s.Free = append(s.Free, p)
+	}
+	sort.Ints(s.Free)
+	return s
+}
